@@ -46,9 +46,10 @@ def violation (labelVals : List Bytes) (msg : String) : String :=
 def keysOK (m : List Label) : Bool :=
   m.all (fun p => validLabelName p.1) && (m.map (·.1)).Nodup
 
-/-- model answer: the escaping renderer if the implementation follows it, otherwise the verbatim one -/
-def pick (impl : String) (esc raw : Bytes) : String :=
-  if impl == Hex.encode esc then Hex.encode esc else Hex.encode raw
+/-- model answer: the escaping renderer (Prometheus text-format rules).  A tree whose `tags` still
+writes label values verbatim differs from it exactly on values outside `safeValue`, where the spec
+verdict is `KNOWN unescapedLabelValue` (the check does not count a divergence on such lines). -/
+def pick (_impl : String) (esc _raw : Bytes) : String := Hex.encode esc
 
 def step (_ : Unit) (op impl : String) : Unit × DrvOut :=
   match words op with
